@@ -349,6 +349,10 @@ def devModelOf (e : Env) (g : List Hd) : Option Nat :=
 /-- what the first yielding service of an address contributes to `FoundDevice` -/
 def foundOf (x : Hd × SvcInfo) : Nat × Bool × Option Nat := (x.2.name, x.1.deep, x.1.rmodel)
 
+/-- the part of `foundOf` that reaches the snapshot: the response's deep-sleep flag and model
+    (the device name - whichever service's name comes first - is not part of the observation) -/
+def flagsOf (x : Hd × SvcInfo) : Bool × Option Nat := (x.1.deep, x.1.rmodel)
+
 def cfgOf (e : Env) (a : Nat) (g : List Hd) (gy : List (Hd × SvcInfo)) (f : Nat × Bool × Option Nat) : RawCfg :=
   ⟨a, f.1, f.2.1,
     match devModelOf e (g.filter (saved e)) with
@@ -442,12 +446,14 @@ def sameTypeOk (e : Env) (h₁ h₂ : Hd) : Bool :=
 def modelOk (e : Env) (h₁ h₂ : Hd) : Bool :=
   !(saved e h₁ && saved e h₂) || optAgree (e.devModel h₁.type h₁.txt) (e.devModel h₂.type h₂.txt)
 
-/-- both yield a service: same response flags and device name; if they map to the same pyatv
-    protocol also the same port and identifier and no disagreement on a property key -/
+/-- both yield a service: same response flags (deep sleep, `_device-info` model); if they map to the
+    same pyatv protocol also the same port and identifier and no disagreement on a property key.
+    The device NAMES the services yield may differ (mDNS-renamed instance "HomePod (2)" next to
+    `Name=HomePod`): the name is not part of the snapshot. -/
 def yieldOk (e : Env) (h₁ h₂ : Hd) : Bool :=
   match yields e h₁, yields e h₂ with
   | some x₁, some x₂ =>
-    decide (foundOf x₁ = foundOf x₂) &&
+    decide (flagsOf x₁ = flagsOf x₂) &&
     (!decide (x₁.2.proto = x₂.2.proto) ||
       (decide (h₁.port = h₂.port) && decide (x₁.2.ident = x₂.2.ident) &&
         propsAgree (e.props h₁.txt) (e.props h₂.txt)))
